@@ -141,3 +141,18 @@ Definition show_pair (S T : ty) (consts : list const) :=
 Definition show_bounds (ts rank : list ty) :=
   (upper_bound (set_conforms Fixed) (rank_srt rank) ts, upper_bound (set_conforms Strict) (rank_srt rank) ts,
    lower_bound (set_conforms Fixed) (rank_srt rank) ts, lower_bound (set_conforms Strict) (rank_srt rank) ts).
+
+(* Regression witnesses of the model for the branch "a is a union" of
+   intersectType (seeded change C12-2 kept the alternative of a instead of its
+   intersection with b): two unions that overlap alternative by alternative,
+   neither conforming to the other, both orders; /foo/z separates /foo from
+   /foo/bar. *)
+Definition u_foo_number := TUnion [TConst (sz 1869571631); TConst s_number].           (* fn:Union(/foo,/number) *)
+Definition u_foobar_string := TUnion [TConst (sz 8241976748937274927); TConst s_string]. (* fn:Union(/foo/bar,/string) *)
+Example lower_bound_two_unions :
+  lower_bound (set_conforms Fixed) id_srt [u_foo_number; u_foobar_string] = Some (TConst (sz 8241976748937274927)) /\
+  lower_bound (set_conforms Fixed) id_srt [u_foobar_string; u_foo_number] = Some (TConst (sz 8241976748937274927)) /\
+  lower_bound (set_conforms Strict) id_srt [u_foo_number; u_foobar_string] = Some (TConst (sz 8241976748937274927)) /\
+  has_type (TConst (sz 1869571631)) (CName (sz 134344151623215)) = true /\
+  has_type u_foobar_string (CName (sz 134344151623215)) = false.
+Proof. vm_compute. repeat split. Qed.
